@@ -447,7 +447,14 @@ func boundsRuleFor(c *core.Ctx, r *core.Report, selected func(*ssa.Function) boo
 				return
 			}
 			// index expressions
-			if strings.HasSuffix(core.FuncName(fn), "Calculator).For") && strings.HasSuffix(xd, ".weights") {
+			wf, wo := an.TerminalField(x)
+			isWeights := wf != nil && nestedIn(c, wo, core.ModPath+"/internal/trigger/gaussian", "Calculator")
+			if wf != nil {
+				if _, isSl := wf.Type().Underlying().(*types.Slice); !isSl {
+					isWeights = false
+				}
+			}
+			if strings.HasSuffix(core.FuncName(fn), "Calculator).For") && (strings.HasSuffix(xd, ".weights") || isWeights) {
 				r.Note(key, pos, "weights[i]: bound depends on time arithmetic (window index); reported as information, not decided")
 				n--
 				return
